@@ -148,6 +148,7 @@ static int doSchedule(SetH& set, int api, int firstId, int count, int* callIdOut
     thrown = e.id;
   }
   tl_callId = prev;
+  vrt::progress(); // a harness step completed (the call returned)
   return thrown;
 }
 
@@ -362,6 +363,7 @@ struct Run04 {
       thrown = e.id;
     }
     waitsChecked.fetch_add(1, std::memory_order_relaxed);
+    vrt::progress();
     if (thrown >= 0) vrt::violation(std::string("wait() threw on a cancelled set without throwing tasks: ") + what, J().kv("id", thrown), "wait-result");
     else if (!r) vrt::violation(std::string("wait() did not report cancellation: ") + what, J().kv("set", kindName(set.kind)), "wait-result");
     if (set.outstanding() != 0) vrt::violation("outstanding != 0 after wait()", J().kv("outstanding", static_cast<long>(set.outstanding())), "wait-result");
@@ -570,8 +572,9 @@ static void genSpec04(vrt::Rng& r, long idx, Spec04& s) {
   s.cancelBy = (s.kind != 0 && r.chance(0.3)) ? 1 : 0;
   s.waitMode = static_cast<int>(r.below(2));
   s.perturb = r.chance(0.3) ? 0.05 : 0.0;
+  if (s.level == 1) s.mult = 32; // set-over without pool-over needs a loose pool load factor
   if (s.scn == 'A') {
-    s.caller = (s.pool > 0 && r.chance(0.4)) ? 1 : 0;
+    s.caller = (s.pool > 0 && s.level != 1 && r.chance(0.4)) ? 1 : 0;
     if (r.chance(0.2)) {
       s.hold = false;
       s.level = 0;
@@ -626,7 +629,8 @@ static void runC04() {
     long waits = 0, fillers = 0;
     {
       dispenso::ThreadPool pool(static_cast<size_t>(s.pool), static_cast<size_t>(s.mult));
-      dispenso::ConcurrentTaskSet aux(pool);
+      vrt::progress();
+      dispenso::ConcurrentTaskSet aux(pool, dispenso::TaskCost::kLightweight); // central queue: every worker looks there (placed work can sit in another group's steal ring)
       Run04 run(s, pool, aux);
       std::thread helper;
       std::atomic<int> helperStop{0};
@@ -894,7 +898,8 @@ static void runC05() {
     done05.store(0, std::memory_order_relaxed);
     {
       dispenso::ThreadPool pool(static_cast<size_t>(s.pool), static_cast<size_t>(s.mult));
-      dispenso::ConcurrentTaskSet aux(pool);
+      vrt::progress();
+      dispenso::ConcurrentTaskSet aux(pool, dispenso::TaskCost::kLightweight); // central queue: every worker looks there (placed work can sit in another group's steal ring)
       Gates& gates = g_sh.gates;
       gates.reset();
       auto driver = [&]() {
@@ -981,6 +986,7 @@ static void runC05() {
             } catch (const VEx& e) {
               got = e.id;
             }
+            vrt::progress(); // the wait call returned
             long infl = g_mon.inflight.load();
             ssize_t out = set.outstanding();
             bool completing = !isTry || got >= 0 || ret || out == 0;
